@@ -180,6 +180,8 @@ type explainer struct {
 	onStack map[uint64]bool
 	// ruleIDs memoizes content-addressed rule IDs keyed by index in program.Rules.
 	ruleIDs map[int]string
+	// cuts counts how often a goal was refused because it is on the stack.
+	cuts int
 }
 
 func (e *explainer) explain(goal ast.Atom, depth int) []*ProofNode {
@@ -187,14 +189,21 @@ func (e *explainer) explain(goal ast.Atom, depth int) []*ProofNode {
 		return []*ProofNode{{Fact: goal, Partial: true, ID: partialID(goal)}}
 	}
 	h := goal.Hash()
-	if cached, ok := e.cache[h]; ok {
-		return cached
-	}
 	if e.onStack[h] {
+		e.cuts++
 		return nil
+	}
+	if cached, ok := e.cache[h]; ok {
+		// A cached proof was found under a different stack of goals. It can
+		// only be reused if it does not pass through a goal that is being
+		// proved right now, otherwise that goal would become its own ancestor.
+		if usable := withoutOnStack(cached, e.onStack); len(usable) > 0 || len(cached) == 0 {
+			return usable
+		}
 	}
 	e.onStack[h] = true
 	defer delete(e.onStack, h)
+	cutsBefore := e.cuts
 
 	var proofs []*ProofNode
 
@@ -249,7 +258,6 @@ func (e *explainer) explain(goal ast.Atom, depth int) []*ProofNode {
 					continue
 				}
 			}
-
 			proof, ok := e.buildProof(&e.program.Rules[ruleIdx], ruleIdx, rule, goal, sol, depth)
 			if !ok {
 				continue
@@ -258,8 +266,42 @@ func (e *explainer) explain(goal ast.Atom, depth int) []*ProofNode {
 		}
 	}
 
-	e.cache[h] = proofs
+	// A failure that met the cycle cut is only a failure under the current
+	// stack of goals; it must not be remembered.
+	if len(proofs) > 0 || e.cuts == cutsBefore {
+		e.cache[h] = proofs
+	}
 	return proofs
+}
+
+// withoutOnStack returns the proofs that do not contain a goal that is on the stack.
+func withoutOnStack(proofs []*ProofNode, onStack map[uint64]bool) []*ProofNode {
+	if len(onStack) == 0 {
+		return proofs
+	}
+	var out []*ProofNode
+	for _, p := range proofs {
+		if !containsOnStack(p, onStack, make(map[*ProofNode]bool)) {
+			out = append(out, p)
+		}
+	}
+	return out
+}
+
+func containsOnStack(n *ProofNode, onStack map[uint64]bool, seen map[*ProofNode]bool) bool {
+	if n == nil || seen[n] {
+		return false
+	}
+	seen[n] = true
+	if n.Kind != KindAbsence && onStack[n.Fact.Hash()] {
+		return true
+	}
+	for _, p := range n.Premises {
+		if containsOnStack(p, onStack, seen) {
+			return true
+		}
+	}
+	return false
 }
 
 // bodySolution carries a successful body unifier plus the ground premise
